@@ -1,6 +1,7 @@
 package props
 
 import (
+	"fmt"
 	"math"
 	"reflect"
 
@@ -348,6 +349,52 @@ func c17More() []c17inst {
 			}
 			return o
 		}, dts: ref.ALL18})
+	}
+	// ---- arg-reductions on special float values (infinities, NaN after an infinity): no type-generic definition is
+	// assumed for NaN - float32 must simply do what float64 does (flat, along an axis, plain and masked kernels)
+	spv := [][]float64{{math.Inf(1), 1, math.Inf(1), 2, 0, 3}, {1, math.Inf(1), math.NaN(), 2, 0, 3}, {math.Inf(-1), 1, math.Inf(-1), 2, math.NaN(), 3}, {math.NaN(), 1, 2, math.Inf(1), math.Inf(-1), 0}}
+	for vi, vals := range spv {
+		for _, am := range []string{"Argmax", "Argmin"} {
+			for _, masked := range []bool{false, true} {
+				for _, ax := range []int{-1, 1} {
+					vi, vals, am, masked, ax := vi, vals, am, masked, ax
+					run := func(d ref.DT) ([]interface{}, bool, string) {
+						back := d.MakeSlice(6)
+						for i, f := range vals {
+							ref.SliceSet(back, i, reflect.ValueOf(f).Convert(d.D.Type).Interface())
+						}
+						var t *tensor.Dense
+						if masked {
+							t = tensor.New(tensor.WithShape(2, 3), tensor.WithBacking(back, []bool{false, false, false, false, true, false}))
+						} else {
+							t = tensor.New(tensor.WithShape(2, 3), tensor.WithBacking(back))
+						}
+						var r *tensor.Dense
+						var err error
+						if am == "Argmax" {
+							r, err = t.Argmax(ax)
+						} else {
+							r, err = t.Argmin(ax)
+						}
+						if err != nil || r == nil {
+							return nil, true, ""
+						}
+						return resOf(r, nil)
+					}
+					out = append(out, c17inst{family: "argreduce-special", op: am, variant: fmt.Sprintf("vals%d-masked=%v-axis=%d", vi, masked, ax), run: run, generic: func() []float64 {
+						res, refused, _ := run(ref.Float64)
+						if refused {
+							return nil
+						}
+						o := make([]float64, len(res))
+						for i, v := range res {
+							o[i], _ = ref.ToF64(v)
+						}
+						return o
+					}, dts: []ref.DT{ref.Float32}})
+				}
+			}
+		}
 	}
 	// ---- Arrow conversions: FromArrowArray (a column) and FromArrowTensor (row- and column-major)
 	arrowDTs := []ref.DT{ref.Int8, ref.Int16, ref.Int32, ref.Int64, ref.Uint8, ref.Uint16, ref.Uint32, ref.Uint64, ref.Float32, ref.Float64}
